@@ -9,6 +9,7 @@ import (
 	"encoding/binary"
 	"errors"
 	"fmt"
+	"io"
 	"net"
 	"reflect"
 	"sort"
@@ -216,6 +217,151 @@ func drive(max int, chunks [][]byte) (delivered [][]byte, rest []byte, code int)
 		delivered = append(delivered, datas...)
 	}
 	return delivered, append([]byte{}, buf.Bytes()...), 0
+}
+
+// feedConn is a net.Conn whose Read hands out the injected reads one by one
+// (then io.EOF); the real readLoop runs on top of it
+type feedConn struct {
+	chunks [][]byte
+	i      int
+}
+
+type feedAddr struct{}
+
+func (feedAddr) Network() string { return "feed" }
+func (feedAddr) String() string  { return "feed:1" }
+
+func (c *feedConn) Read(b []byte) (int, error) {
+	if c.i >= len(c.chunks) {
+		return 0, io.EOF
+	}
+	n := copy(b, c.chunks[c.i])
+	if n < len(c.chunks[c.i]) {
+		c.chunks[c.i] = c.chunks[c.i][n:]
+	} else {
+		c.i++
+	}
+	return n, nil
+}
+func (c *feedConn) Write(b []byte) (int, error)        { return len(b), nil }
+func (c *feedConn) Close() error                       { return nil }
+func (c *feedConn) LocalAddr() net.Addr                { return feedAddr{} }
+func (c *feedConn) RemoteAddr() net.Addr               { return feedAddr{} }
+func (c *feedConn) SetDeadline(t time.Time) error      { return nil }
+func (c *feedConn) SetReadDeadline(t time.Time) error  { return nil }
+func (c *feedConn) SetWriteDeadline(t time.Time) error { return nil }
+
+// drive the REAL readLoop (bufio reader, conn.Buffer handling, decodeData,
+// hand-over to the message channel) with the given reads; every read is at most
+// 1024 bytes so that it reaches decodeData as one piece
+func driveReadLoop(max int, chunks [][]byte) (delivered [][]byte, rest []byte, code int) {
+	cfg := gnet.NewConfig()
+	cfg.MaxIncomingMessageLength = max
+	cfg.ReadTimeout = 0
+	pool, err := gnet.NewConnectionPool(cfg, nil)
+	if err != nil {
+		panic(err)
+	}
+	total := 0
+	cp := make([][]byte, 0, len(chunks))
+	for _, c := range chunks {
+		if len(c) > 0 {
+			cp = append(cp, append([]byte{}, c...))
+			total += len(c)
+		}
+	}
+	conn := gnet.NewConnection(pool, 1, &feedConn{chunks: cp}, 1, false)
+	msgC := make(chan []byte, total/8+4) // never full: a frame takes at least 8 bytes
+	qc := make(chan struct{})
+	var rerr error
+	if Guard(func() { rerr = pool.VerifReadLoop(conn, msgC, qc) }) {
+		code = 98
+	} else if re, ok := rerr.(*gnet.ReadError); ok && re.Err == io.EOF {
+		code = 0 // all reads consumed
+	} else {
+		code = errCode(rerr)
+		if code == 0 {
+			code = 97
+		}
+	}
+	for {
+		select {
+		case d, ok := <-msgC:
+			if !ok {
+				return delivered, append([]byte{}, conn.Buffer.Bytes()...), code
+			}
+			delivered = append(delivered, d)
+		default:
+			return delivered, append([]byte{}, conn.Buffer.Bytes()...), code
+		}
+	}
+}
+
+func sameObs(d1 [][]byte, r1 []byte, c1 int, d2 [][]byte, r2 []byte, c2 int) bool {
+	if c1 != c2 || len(d1) != len(d2) || !bytes.Equal(r1, r2) {
+		return false
+	}
+	for i := range d1 {
+		if !bytes.Equal(d1[i], d2[i]) {
+			return false
+		}
+	}
+	return true
+}
+
+// large frames are not printed byte by byte: payload = genBytes(seed, n)
+// (the same generator is defined in Corr/C22_*.v), observed frames are
+// projected to (length, fingerprint)
+func genBytes(seed uint32, n int) []byte {
+	b := make([]byte, n)
+	x := seed
+	for i := range b {
+		x = x*1664525 + 1013904223
+		b[i] = byte(x >> 24)
+	}
+	return b
+}
+
+const fpMod = 2305843009213693951 // 2^61 - 1
+
+func fingerprint(b []byte) uint64 {
+	var h uint64
+	for _, x := range b {
+		// (h*257 + x + 1) mod p without overflow: h < 2^61, 257*h < 2^70 -> use 128-bit via splitting
+		hi, lo := mul64(h, 257)
+		h = mod128(hi, lo, fpMod)
+		h = (h + uint64(x) + 1) % fpMod
+	}
+	return h
+}
+
+func mul64(a, b uint64) (hi, lo uint64) {
+	const mask32 = 1<<32 - 1
+	a0, a1 := a&mask32, a>>32
+	b0, b1 := b&mask32, b>>32
+	w0 := a0 * b0
+	t := a1*b0 + w0>>32
+	w1 := t & mask32
+	w2 := t >> 32
+	w1 += a0 * b1
+	hi = a1*b1 + w2 + w1>>32
+	lo = a * b
+	return
+}
+
+// (hi*2^64 + lo) mod (2^61-1), using 2^61 = 1 (mod p)
+func mod128(hi, lo, p uint64) uint64 {
+	// value = hi*2^64 + lo = hi*8*2^61 + lo = hi*8 + (lo >> 61) + (lo & p)  (mod p)
+	r := (hi*8)%p + (lo >> 61) + (lo & p)
+	return r % p
+}
+
+func lenFp(fs [][]byte) string {
+	it := make([]string, len(fs))
+	for i, f := range fs {
+		it[i] = Tuple(fmt.Sprint(len(f)), fmt.Sprint(fingerprint(f)))
+	}
+	return List(it)
 }
 
 // decoder oracle for one frame: what the registered type's Decode does on the body
@@ -487,10 +633,24 @@ func run(args []string) error {
 	var streams []string
 	addStream := func(kind int, max int, chunks [][]byte, intended [][]byte, what string) {
 		d, rest, code := drive(max, chunks)
+		// the same reads through the real readLoop; printed only when it differs from
+		// what decodeData over a persistent buffer gave (None = byte-identical observation)
+		d2, rest2, code2 := driveReadLoop(max, chunks)
+		obs2 := "None"
+		same := sameObs(d, rest, code, d2, rest2, code2)
+		if !same {
+			obs2 = Some(Tuple(framesList(d2), PB(rest2), fmt.Sprint(code2)))
+		}
 		streams = append(streams, Tuple(fmt.Sprint(kind), fmt.Sprint(max), framesList(chunks), framesList(intended),
-			Tuple(framesList(d), PB(rest), fmt.Sprint(code))))
+			Tuple(framesList(d), PB(rest), fmt.Sprint(code)), obs2))
 		cj := map[string]interface{}{"kind": kind, "max": max, "chunks": hexs(chunks), "intended_frames": hexs(intended),
-			"delivered": hexs(d), "buffer_left": fmt.Sprintf("%x", rest), "status": code, "what": what}
+			"delivered": hexs(d), "buffer_left": fmt.Sprintf("%x", rest), "status": code, "what": what,
+			"readloop_same_as_decodeData": same}
+		if !same {
+			cj["readloop_delivered"] = hexs(d2)
+			cj["readloop_buffer_left"] = fmt.Sprintf("%x", rest2)
+			cj["readloop_status"] = code2
+		}
 		caseJSON["stream"] = append(caseJSON["stream"], cj)
 		o.Count(fmt.Sprint("stream", max, hexs(chunks)), len(d) > 0 || code != 0)
 		hist.Add(fmt.Sprintf("stream:%s:status%d", what, code))
@@ -614,7 +774,7 @@ func run(args []string) error {
 			}
 		}
 	}
-	o.Def("cases_stream", "Z * Z * list bytes * list bytes * (list bytes * bytes * Z)", streams)
+	o.Def("cases_stream", "Z * Z * list bytes * list bytes * (list bytes * bytes * Z) * option (list bytes * bytes * Z)", streams)
 
 	// ------------------------------------------------------------ convert
 	var convs []string
@@ -763,11 +923,111 @@ func run(args []string) error {
 	}
 	o.Def("cases_pool", "Z * list bytes * list (bytes * decoded) * Z * (list bytes * Z)", pools)
 
+	// ------------------------------------------------------------ large frames through the real readLoop and the real pool
+	// a frame above 32 KiB followed at once by further frames, the frame boundary inside a read
+	var bigs []string
+	nb := 5
+	if thorough {
+		nb = 40
+	}
+	for i := 0; i < nb; i++ {
+		max := 512 * 1024
+		type fspec struct {
+			seed uint32
+			n    int
+		}
+		var specs []fspec
+		nf := 2 + r.Intn(4)
+		bigAt := r.Intn(nf - 1) // never the last frame: something must follow the large one
+		for j := 0; j < nf; j++ {
+			n := r.Intn(40)
+			if r.Chance(30) {
+				n = 200 + r.Intn(3000)
+			}
+			if j == bigAt || (thorough && r.Chance(15)) {
+				n = 33*1024 + r.Intn(50*1024)
+				if thorough && r.Chance(25) {
+					n = 100*1024 + r.Intn(200*1024)
+				}
+			}
+			specs = append(specs, fspec{uint32(r.U64()), n})
+		}
+		var frames [][]byte
+		var s []byte
+		var ends []int
+		for _, sp := range specs {
+			fr := encodeMsg(&tstMsg{Payload: genBytes(sp.seed, sp.n)})[4:]
+			frames = append(frames, fr)
+			s = append(s, encFrame(fr)...)
+			ends = append(ends, len(s))
+		}
+		// reads of at most 1024 bytes; a frame end is never a read boundary unless it is the end of the stream
+		var chunks [][]byte
+		for pos := 0; pos < len(s); {
+			n := 1 + r.Intn(1024)
+			if r.Chance(60) {
+				n = 1024
+			}
+			if pos+n > len(s) {
+				n = len(s) - pos
+			}
+			for _, e := range ends {
+				if pos+n == e && e != len(s) {
+					if n > 1 {
+						n--
+					} else {
+						n++
+					}
+				}
+			}
+			chunks = append(chunks, append([]byte{}, s[pos:pos+n]...))
+			pos += n
+		}
+		d, rest, code := driveReadLoop(max, chunks)
+		res := drivePool(max, chunks, false)
+		var fsp, lens []string
+		for _, sp := range specs {
+			fsp = append(fsp, Tuple(fmt.Sprint(sp.seed), fmt.Sprint(sp.n)))
+		}
+		for _, c := range chunks {
+			lens = append(lens, fmt.Sprint(len(c)))
+		}
+		bigs = append(bigs, Tuple(fmt.Sprint(max), List(fsp), rle64(lens),
+			Tuple(lenFp(d), fmt.Sprint(len(rest)), fmt.Sprint(code)),
+			Tuple(lenFp(res.handled), fmt.Sprint(res.code))))
+		sizes := make([]int, len(specs))
+		for j, sp := range specs {
+			sizes[j] = sp.n
+		}
+		cj := map[string]interface{}{"max": max, "payload_sizes": sizes, "payload_seeds": fsp, "read_sizes": lens,
+			"readloop_delivered_len_fp": lenFp(d), "readloop_buffer_left_len": len(rest), "readloop_status": code,
+			"pool_handled_len_fp": lenFp(res.handled), "pool_disconnect_code": res.code, "pool_reason_text": res.text,
+			"what": "frame = 'TSTA' ++ le32(n) ++ genBytes(seed, n), genBytes: x = x*1664525+1013904223 (uint32), byte = x>>24"}
+		caseJSON["big"] = append(caseJSON["big"], cj)
+		o.Count(fmt.Sprint("big", sizes, lens), true)
+		hist.Add(fmt.Sprintf("big:frames%d:readloop%d:pool%d", len(specs), code, res.code))
+	}
+	o.Def("cases_big", "Z * list (Z * Z) * list (Z * Z) * (list (Z * Z) * Z * Z) * (list (Z * Z) * Z)", bigs)
+
 	o.Side["cases"] = caseJSON
 	o.Side["samples"] = samples
 	o.Side["distribution"] = hist.Sorted()
 	o.Side["rule"] = "stream case = (max, chunk list) fed to decodeData through one persistent bytes.Buffer as readLoop does; non-trivial = at least one frame delivered or a disconnect; convert case = one frame through convertToMessage with the decoder's own verdict as oracle; pool case = chunks written to a net.Pipe served by ConnectionPool.handleConnection, observable = frames handled in order + disconnect reason"
 	return o.Write(f.Out, f.JSON)
+}
+
+// run-length encoding of a list of numbers: (value, repeat count)
+func rle64(xs []string) string {
+	var it []string
+	for i := 0; i < len(xs); {
+		j := i
+		for j < len(xs) && xs[j] == xs[i] {
+			j++
+		}
+		it = append(it, Tuple(xs[i], fmt.Sprint(j-i)))
+		i = j
+	}
+	return List(it)
 }
 
 func bucket(n int) string {
